@@ -1,6 +1,6 @@
 //! Small-scope document generators for BTOR2.
 
-use mc_core::generic::{byte_sweep, dedup_docs, single_edit_neighbours, token_sequences, Doc, MARKERS};
+use mc_core::generic::{byte_sweep, comment_byte_docs, dedup_docs, digit_byte_docs, single_edit_neighbours, token_sequences, Doc, MARKERS};
 use mc_core::Tier;
 
 pub const UNARY: [&str; 7] = ["not", "inc", "dec", "neg", "redand", "redor", "redxor"];
@@ -88,6 +88,13 @@ pub fn inputs_seq(tier: Tier, seq_len: usize) -> Inputs {
             nb.extend(byte_sweep(d));
         }
     }
+    // number tokens followed by every byte value (id and width positions)
+    nb.extend(digit_byte_docs("btor2-width", b"1 sort bitvec ", b"\n", false));
+    nb.extend(digit_byte_docs("btor2-id", b"", b" sort bitvec 1\n", false));
+    // comment and symbol text with every byte value in every lane
+    nb.extend(comment_byte_docs("btor2-comment", b"1 sort bitvec 1 ; ", b"2 input 1\n"));
+    nb.extend(comment_byte_docs("btor2-comment-line", b"; ", b"1 sort bitvec 1\n"));
+    nb.extend(comment_byte_docs("btor2-symbol", b"1 sort bitvec 1\n2 input 1 ", b"3 not 1 2\n"));
     let sequences = dedup_docs(token_sequences(&tokens(), seq_len));
     // all short strings over a 10-symbol alphabet (arbitrary inputs)
     let mut sequences = sequences;
